@@ -99,6 +99,8 @@ type c06Op struct {
 	Kind     string // set | mset | pset | del | get | scan | hist
 	Keys     []string
 	Vals     []string
+	Via      string // mset: "" (Set) | execall
+	AtTx     uint64 // getat
 	Pre      string // pset: exist | notexist | notmod
 	PreKey   string
 	PreTx    uint64
@@ -163,8 +165,39 @@ func c06Body(r *simcore.Run) {
 					op.Kind, op.Keys = "del", []string{k}
 				case w < 17:
 					op.Kind, op.Keys = "get", []string{k}
-				case w < 19:
+				case w < 18:
 					op.Kind = "scan"
+				case w < 19:
+					switch r.Intn(3) {
+					case 0: // the same atomic batch through ExecAll
+						k2 := c06Keys[r.Intn(len(c06Keys))]
+						if k2 == k {
+							op.Kind, op.Keys, op.Vals = "set", []string{k}, []string{nv()}
+						} else {
+							op.Kind, op.Keys, op.Vals, op.Via = "mset", []string{k, k2}, []string{nv(), nv()}, "execall"
+						}
+					case 1:
+						k2 := c06Keys[r.Intn(len(c06Keys))]
+						if k2 == k {
+							k2 = c06Keys[(r.Intn(len(c06Keys)-1)+1+strings.Index("abcd", k))%len(c06Keys)]
+						}
+						op.Kind, op.Keys = "getall", []string{k, k2}
+					default:
+						// a read at the transaction of an earlier write of this key that has returned
+						op.Kind, op.Keys = "get", []string{k}
+						for _, w := range ops {
+							if w.TxID != 0 && (w.Kind == "set" || w.Kind == "mset" || w.Kind == "pset") {
+								for _, wk := range w.Keys {
+									if wk == k {
+										op.AtTx = w.TxID
+									}
+								}
+							}
+						}
+						if op.AtTx != 0 {
+							op.Kind = "getat"
+						}
+					}
 				default:
 					op.Kind, op.Keys = "hist", []string{k}
 				}
@@ -222,6 +255,19 @@ func c06Exec(ctx context.Context, d database.DB, op *c06Op) {
 				req.Preconditions = []*schema.Precondition{schema.PreconditionKeyNotModifiedAfterTX([]byte(op.PreKey), op.PreTx)}
 			}
 		}
+		if op.Via == "execall" {
+			ea := &schema.ExecAllRequest{}
+			for _, kv := range req.KVs {
+				ea.Operations = append(ea.Operations, &schema.Op{Operation: &schema.Op_Kv{Kv: kv}})
+			}
+			hdr, err := d.ExecAll(ctx, ea)
+			if err != nil {
+				fail(err)
+				return
+			}
+			op.TxID = hdr.Id
+			return
+		}
 		hdr, err := d.Set(ctx, req)
 		if err != nil {
 			fail(err)
@@ -243,6 +289,22 @@ func c06Exec(ctx context.Context, d database.DB, op *c06Op) {
 		}
 		op.Got, op.TxID = []string{string(e.Value)}, e.Tx
 		op.GotTx = []uint64{e.Revision}
+	case "getat":
+		e, err := d.Get(ctx, &schema.KeyRequest{Key: []byte(op.Keys[0]), AtTx: op.AtTx})
+		if err != nil {
+			fail(err)
+			return
+		}
+		op.Got, op.TxID = []string{string(e.Value)}, e.Tx
+	case "getall":
+		es, err := d.GetAll(ctx, &schema.KeyListRequest{Keys: [][]byte{[]byte(op.Keys[0]), []byte(op.Keys[1])}})
+		if err != nil {
+			fail(err)
+			return
+		}
+		for _, e := range es.Entries {
+			op.Got = append(op.Got, string(e.Key)+"="+string(e.Value))
+		}
 	case "scan":
 		es, err := d.Scan(ctx, &schema.ScanRequest{})
 		if err != nil {
@@ -371,6 +433,42 @@ func c06Check(r *simcore.Run, ops []*c06Op) {
 			}
 			if !ok {
 				c06Viol(r, "not-linearizable", "client %d: Get(%q) returned (%v, tx %d, notfound=%v) which matches no state between tx %d and tx %d (call %d, return %d)\n  history: %s", op.Client, op.Keys[0], op.Got, op.TxID, op.NotFound, lo, hi, op.Call, op.Ret, c06Dump(ops))
+			}
+		case "getat":
+			// the version written by that transaction, whatever happened since
+			want, okv := "", false
+			for _, v := range states[maxID][op.Keys[0]] {
+				if v.Tx == op.AtTx && !v.Deleted {
+					want, okv = v.Val, true
+				}
+			}
+			if op.AtTx > maxID || !okv {
+				continue // the write did not make it into the recorded order
+			}
+			if op.Err != "" || op.NotFound || op.Got[0] != want || op.TxID != op.AtTx {
+				c06Viol(r, "not-linearizable", "client %d: Get(%q, AtTx %d) returned (%v, tx %d, notfound=%v, err %q); that transaction wrote %q\n  history: %s", op.Client, op.Keys[0], op.AtTx, op.Got, op.TxID, op.NotFound, op.Err, want, c06Dump(ops))
+			}
+		case "getall":
+			if op.Err != "" {
+				r.Violation("read-error", "", "GetAll failed: %s", op.Err)
+			}
+			ok := false
+			for s := lo; s <= hi && !ok; s++ {
+				var want []string
+				seen := map[string]bool{}
+				for _, k := range op.Keys {
+					if v, found := live(states[s], k); found && !seen[k] {
+						want = append(want, k+"="+v.Val)
+					}
+					seen[k] = true
+				}
+				got := append([]string(nil), op.Got...)
+				sort.Strings(want)
+				sort.Strings(got)
+				ok = strings.Join(want, ",") == strings.Join(got, ",")
+			}
+			if !ok {
+				c06Viol(r, "not-linearizable", "client %d: GetAll(%v) returned %v which matches no state between tx %d and tx %d\n  history: %s", op.Client, op.Keys, op.Got, lo, hi, c06Dump(ops))
 			}
 		case "scan":
 			if op.Err != "" {
